@@ -98,6 +98,19 @@ fn req_run(a: &Args) -> Args {
         let r1 = format!("{:?}", q.into_request().map_err(|e| perr_code(&e)));
         let r0 = format!("{:?}", p.clone().into_request().map_err(|e| perr_code(&e)));
         assert_eq!(r0, r1, "parse() after done changed the result");
+        // a driver that drains its socket into the parser before looking at `done`: bytes reported to parse() after the
+        // request is complete must end up, in order, at the end of the leftover (C05)
+        let mut q = p.clone();
+        let before = q.clone().into_request().map(|(_, left)| left.to_vec());
+        let rest = &wire[wire.len() - unfed..];
+        let n = q.input_buffer().len().min(rest.len()).min(7);
+        q.input_buffer()[..n].copy_from_slice(&rest[..n]);
+        let y = q.parse(n);
+        assert!(y.done && y.output.is_empty(), "parse() after done must report done again and emit nothing");
+        if let (Ok(mut b), Ok((_, after))) = (before, q.into_request()) {
+            b.extend_from_slice(&rest[..n]);
+            assert_eq!(&b[..], &after[..], "input fed after the request was complete is not the tail of the leftover");
+        }
     }
     match p.into_request() {
         Ok((r, left)) => {
